@@ -4,6 +4,7 @@ mod c02;
 mod c03;
 mod c04;
 mod c05;
+mod c06;
 mod c07;
 mod c08;
 mod c09;
@@ -35,6 +36,7 @@ fn main() {
                 "C02" => c02::replay(cases, verd, &args[5]),
                 "C04" => c04::replay(cases, verd),
                 "C05" => c05::replay(cases, verd),
+                "C06" => c06::replay(cases, verd),
                 "C07" => c07::replay(cases, verd),
                 "C08" => c08::replay(cases, verd),
                 "C09" => c09::replay(cases, verd),
@@ -64,6 +66,7 @@ fn main() {
                 "C04" => c04::record(seed, n, out, args.get(6).and_then(|s| s.parse().ok()).unwrap_or(300)),
                 "C05" => c05::record(seed, n, out, args.get(6).and_then(|s| s.parse().ok()).unwrap_or(12)),
                 "C09" => { let _ = (seed, n); c09::record(&args[6], out) }
+                "C06" => c06::record(seed, n, out),
                 "C08" => c08::record(seed, n, out, args.get(6).and_then(|s| s.parse().ok()).unwrap_or(200)),
                 "C11" => c11::record(&args[6], seed, n, out),
                 "C10" => c10::record(seed, n, out),
